@@ -870,7 +870,9 @@ class HistSim(Sim):
             # tolerance cannot see: these leaves are not judged until their next reset
             st.unknown.update(leaves_reached)
             st.notes["sweep_crossed_float32_seeded_node_not_judged"] += 1
-        if g is not None and g.dtype == np.float32 and st.meta[root]["kind"] == "node":
+        if g is not None and st.meta[root]["kind"] == "node" and (g.dtype == np.float32 or g.dtype != t.data.dtype):
+            # (also a float64 seed on a float32 node: whether the buffer a LATER sweep accumulates in is the old float64 one, zeroed in
+            # place, or a fresh float32 one is the same dtype matter)
             low_nodes.add(root)
         if isinstance(raised, SimFault):
             st.faults[f"sweep_{fault['seam']}_{fault['kind']}"] += 1
